@@ -21,7 +21,9 @@ EXPLANATION = (
     "constant_conc is True, where it is written back unchanged or as a stabilising default. Crop, management, "
     "groundwater and initial-water-content objects are not written at all. C11.b (kind typestate): a user attribute "
     "that is overwritten must keep the interface the earlier reads of the same attribute rely on (a DataFrame is not "
-    "replaced by an ndarray). NOT decided: equality of the results of run 1 and run 2.")
+    "replaced by an ndarray). C11.c (state on the model object): every attribute of the model object that a run writes "
+    "(run_model or the step) and the step reads is assigned on every path of _initialize, so a second run of the same object "
+    "does not start from what the first left. NOT decided: equality of the results of run 1 and run 2.")
 
 IDEMPOTENT_OPS = {"ffill", "bfill", "round", "astype", "abs", "clip", "sort_values", "sort_index", "drop_duplicates", "fillna"}
 NDARRAY_ATTRS = {"shape", "flatten", "copy", "astype", "size", "dtype", "T", "sum", "mean", "min", "max", "ravel", "reshape",
@@ -260,8 +262,58 @@ def _interface(prog, roles, field: str, paths: Set[str]) -> Set[str]:
     return need
 
 
+def rule_c(chk, prog):
+    """state kept on the model object itself: an attribute of `self` that a run writes (run_model or the step) and that the step
+    reads must be re-established by _initialize on every path - otherwise the second run of the same object starts from what the
+    first run left (e.g. the 'process the outputs now' flag of run_model(num_steps=..., process_outputs=True))"""
+    from ..common import RUN_ROOT, INIT_ROOT, STEP_ROOT
+    from ..rdef import flow_of
+    run_, ini, stp = prog.func(RUN_ROOT), prog.func(INIT_ROOT), prog.func(STEP_ROOT)
+    def self_attr(n):
+        return isinstance(n, ast.Attribute) and isinstance(n.value, ast.Name) and n.value.id == "self"
+    def written(fi):
+        out = {}
+        for a in walk_no_nested(fi.node):
+            ts = []
+            if isinstance(a, ast.Assign):
+                for t in a.targets:
+                    ts += list(t.elts) if isinstance(t, ast.Tuple) else [t]
+            elif isinstance(a, (ast.AugAssign, ast.AnnAssign)):
+                ts = [a.target]
+            for t in ts:
+                if self_attr(t):
+                    out.setdefault(t.attr, a)
+        return out
+    w_run = dict(written(stp))
+    w_run.update(written(run_))
+    r_step = {n.attr for n in walk_no_nested(stp.node) if self_attr(n) and isinstance(n.ctx, ast.Load)}
+    carried = sorted(set(w_run) & r_step)
+    chk.floor("C11.c", len(carried), 4, "model attributes written by a run and read by the step")
+    flow = flow_of(ini)
+    cfg = flow.cfg
+    for f in carried:
+        construct = f"self.{f} (written by a run, read by the step)"
+        setters = {flow.stmt_node.get(id(a)) for a in walk_no_nested(ini.node)
+                   if isinstance(a, (ast.Assign, ast.AugAssign, ast.AnnAssign)) and any(
+                       self_attr(t) and t.attr == f for tt in (a.targets if isinstance(a, ast.Assign) else [a.target])
+                       for t in (tt.elts if isinstance(tt, ast.Tuple) else [tt]))}
+        setters.discard(None)
+        if not setters:
+            chk.violation("C11.c", f"{ini.module}:{ini.qualname}", construct,
+                          f"_initialize never assigns self.{f}: a second run of the same model object starts from the value the first run left",
+                          loc=run_.loc(w_run[f]))
+            continue
+        # every path through _initialize passes a setter
+        if cfg.paths_exist_avoiding(cfg.entry, cfg.exit, setters):
+            chk.violation("C11.c", f"{ini.module}:{ini.qualname}", construct, f"self.{f} is re-established on some paths of _initialize only", loc=ini.loc())
+        else:
+            chk.ok("C11.c", f"{ini.module}:{ini.qualname}", construct, "assigned on every path of _initialize")
+    chk.fn(ini.key); chk.fn(run_.key); chk.fn(stp.key)
+
+
 def run(chk, prog, tier):
     rule_a(chk, prog)
     rule_b(chk, prog)
+    rule_c(chk, prog)
     chk.assume("A-10")
     chk.exhaustive = True
